@@ -81,6 +81,9 @@ def entry_points(good_schema, cfg, bad_schema, probe):
         except Exception:
             pv, pe = "raise", None
         try:
+            # acceptance is judged on a cold cache; dependence on the cache state is C08's property
+            pool.PoolValidator.clear_caches()
+            cerberus.Validator.clear_caches()
             fn(v)
             out = "accepted"
         except cerberus.SchemaError:
@@ -114,12 +117,16 @@ def entry_points(good_schema, cfg, bad_schema, probe):
         if bad_schema[f] != good_schema.get(f, None):
             attempt("setitem", lambda v, f=f: v.schema.__setitem__(f, copy.deepcopy(bad_schema[f])))
     attempt("update", lambda v: v.schema.update(bad()))
+    # an update that brings new fields: well-formed ones first, the corrupted field(s) after them
+    renamed = {("n_%s" % f): r for f, r in bad_schema.items()}
+    fresh_first = dict(sorted(renamed.items(), key=lambda kv: kv[1] != good_schema.get(kv[0][2:] if kv[0][2:] in good_schema else next((g for g in good_schema if str(g) == kv[0][2:]), None))))
+    attempt("update-new-fields", lambda v: v.schema.update(copy.deepcopy(fresh_first)))
     return res
 
 
 def run(ctx):
     thorough = ctx["tier"] == "thorough"
-    n = 4000 if thorough else 350
+    n = 4000 if thorough else 220
     rng = random.Random(ctx["seed"] + 4)
     g = Gen(ctx["seed"] + 40, normalization=True, nested_bias=True)
     violations, samples = [], []
@@ -173,6 +180,8 @@ def run(ctx):
             cases += 1
             dist["entry_allow_unknown-setter"] += 1
             try:
+                pool.PoolValidator.clear_caches()
+                cerberus.Validator.clear_caches()
                 v.allow_unknown = copy.deepcopy(bad_rules)
                 out = "accepted"
             except cerberus.SchemaError:
